@@ -9,4 +9,5 @@ CONSTANTS
   Sizes = {}
   RDelims = {}
   MaxOps = 1000000
+  MaxRetry = 0
 INVARIANT Sound
